@@ -50,7 +50,8 @@ func wrapInst(v string, depth int) string {
 func Dyn(maxK int, fullK int, yield func(u *Universe)) {
 	// "ptr" and "anch" enter the next resource through its interior ($defs/entry by
 	// pointer / by $anchor) instead of through its root
-	allHops := []string{"ref", "items", "ptr", "allOf", "anch", "dynref", "anyOf"}
+	// "alias" enters it at $defs/entry too, but entry holds nothing besides the way on (a bare {"$ref": ...})
+	allHops := []string{"ref", "items", "ptr", "alias", "allOf", "anch", "dynref", "anyOf"}
 	for k := 1; k <= maxK; k++ {
 		hops := allHops
 		if k > fullK {
@@ -108,7 +109,7 @@ func Dyn(maxK int, fullK int, yield func(u *Universe)) {
 						if k == 1 && placement > 0 && !strings.HasPrefix(fin, "x.") && !strings.HasPrefix(fin, "y.") {
 							continue
 						}
-						if k >= 4 && placement == 2 {
+						if (k >= 4 || (k == fullK && fullK == 3)) && placement == 2 {
 							continue
 						}
 						res := make([]string, k)
@@ -129,7 +130,7 @@ func Dyn(maxK int, fullK int, yield func(u *Universe)) {
 									next = `"items":{"$ref":"` + t + `"}`
 								case "anyOf":
 									next = `"anyOf":[false,{"$ref":"` + t + `"}]`
-								case "ptr":
+								case "ptr", "alias":
 									next = `"$ref":"` + t + `#/$defs/entry"`
 								case "anch":
 									next = `"$ref":"` + t + `#e"`
@@ -138,7 +139,9 @@ func Dyn(maxK int, fullK int, yield func(u *Universe)) {
 								next = `"$dynamicRef":"` + fin + `"`
 							}
 							defs := fmt.Sprintf(`"m":{%s"const":%d}`, anchorKinds[kind[i]], 10+i)
-							if i > 0 && (hops[hop[i-1]] == "ptr" || hops[hop[i-1]] == "anch") {
+							if i > 0 && hops[hop[i-1]] == "alias" {
+								defs += `,"entry":{` + next + `}`
+							} else if i > 0 && (hops[hop[i-1]] == "ptr" || hops[hop[i-1]] == "anch") {
 								// entered through its interior: the way on starts at $defs/entry
 								defs += `,"entry":{"$anchor":"e",` + next + `}`
 							} else {
